@@ -1194,6 +1194,9 @@ func rangeIter(fr *frame, x value, t types.Type) iter {
 	case string:
 		return &stringIter{s: x}
 	case *rope:
+		if x.hasOnlyFixed() {
+			return &ropeIter{fr: fr, bs: x.toBytes(fr)}
+		}
 		return &stringIter{s: x.concretizeString(fr)}
 	}
 	panic(fmt.Sprintf("cannot range over %T", x))
